@@ -260,8 +260,14 @@ def write_evidence(ctx, violations, known_seen, status):
         "violations": violations,
     }
     for k, v in ctx.extra.items():
-        if k not in ("rule", "exhaustive"):
-            ev["coverage"][k] = v
+        if k in ("rule", "exhaustive"):
+            continue
+        if k == "programs" and isinstance(v, dict):
+            # the schema reserves coverage.programs for a count: the per-family table goes under its own key
+            ev["coverage"]["programs_by_family"] = v
+            ev["coverage"]["programs"] = sum(x for x in v.values() if isinstance(x, int))
+            continue
+        ev["coverage"][k] = v
     os.makedirs(os.path.join(ROOT, "evidence"), exist_ok=True)
     path = os.path.join(ROOT, "evidence", ctx.prop + ".json")
     with open(path + ".tmp", "w") as f:
